@@ -55,7 +55,17 @@ def _env():
 
     class DerT(BaseT):
         ATTR_RULES = rules
-    _ENV.update(x=xlsread, Obj=Obj, Obj2=Obj2, rules=rules, BaseT=BaseT, DerT=DerT)
+    # two objects per row: the plain attributes and the ranged attribute are read into different objects
+    class ObjA(xlsread.XlsObject):
+        _ATTRS = ['id', 'opt', 'ext']
+        _NUM_ID_ATTRS = 1
+
+    class ObjM(xlsread.XlsObject):
+        _ATTRS = ['name', 'marks']          # the first attribute of an object must be a single cell (its anchor)
+        _NUM_ID_ATTRS = 0
+    rules_a = {k: rules[k] for k in ('id', 'opt', 'ext')}
+    rules_m = {'name': rules['name'], 'marks': rules['marks']}
+    _ENV.update(x=xlsread, Obj=Obj, Obj2=Obj2, rules=rules, BaseT=BaseT, DerT=DerT, ObjA=ObjA, ObjM=ObjM, rules_a=rules_a, rules_m=rules_m)
     return _ENV
 
 
@@ -125,6 +135,34 @@ def run_case(case):
     r = _compare(objs, case['objs'], where, key_n)
     if r:
         return r
+    if key_n == 1:
+        # the same table read into two objects per row (XlsTableReader with two rule sets): the columns claimed by the
+        # first object are not part of the ranged group of the second one
+        w3 = where + ' read into two objects per row (XlsTableReader with two XlsObjReadRules)'
+        try:
+            rd = x.XlsTableReader(x.XlsObjReadRules(e['ObjA'], e['rules_a']), x.XlsObjReadRules(e['ObjM'], e['rules_m']))
+            pairs = list(rd.iter_table(_Sheet(case['sheet']), stop_on=case['stopOn'], ladder_format=case['ladder']))
+        except Exception as ex:
+            return '%s raised %s: %s' % (w3, type(ex).__name__, str(ex)[:100])
+        if len(pairs) != len(case['objs']):
+            return '%s: %d rows, expected %d' % (w3, len(pairs), len(case['objs']))
+        for k, ((a, m), ex_) in enumerate(zip(pairs, case['objs'])):
+            if ex_['isnone']:
+                if a is not None:
+                    return '%s, data row %d: object for a row with blank key' % (w3, k + 1)
+                continue
+            if a is None or m is None:
+                return '%s, data row %d: no object' % (w3, k + 1)
+            if (a.id, m.name) != (_conv(ex_['id']['val']), _conv(ex_['name']['val'])):
+                return '%s, data row %d: id/name %r, cells hold %r' % (w3, k + 1, (a.id, m.name), (_conv(ex_['id']['val']), _conv(ex_['name']['val'])))
+            marks = ex_['marks'] if isinstance(ex_['marks'], dict) else dict(enumerate(ex_['marks']))
+            wantm = {mm['key']: _conv(mm['val']) for mm in marks.values()}
+            if m.marks != wantm:
+                return '%s, data row %d: ranged attribute %r, source cells give %r' % (w3, k + 1, m.marks, wantm)
+            for mm in marks.values():
+                if m.get_attr_origin('marks', mm['key']) != _org(mm['org']):
+                    return '%s, data row %d: origin of marks[%s] %s, expected %s' % (
+                        w3, k + 1, mm['key'], m.get_attr_origin('marks', mm['key']), _org(mm['org']))
     if not case['ladder'] and case['stopOn'] == 'blank all' and key_n == 1:
         # the same table through the TableReader mixin: base class first, then the class derived from it
         try:
